@@ -28,6 +28,15 @@ from ffv import common, translate  # noqa
 def lean_stage(ctx, mod):
     """translate, build, audit -> obligations"""
     prop = ctx.prop
+    # source pins (one Lean module each, so that a broken pin is attributed to the properties that
+    # list it and to no other)
+    pins = list(getattr(mod, 'PINS', []))
+    if pins and not getattr(mod, '_pins_merged', False):
+        mod.LEAN_MODULES = list(getattr(mod, 'LEAN_MODULES', [f'FFVerif.Props.{prop}'])) \
+            + [f'FFVerif.Pins.{n}' for n in pins]
+        mod.THEOREMS = list(mod.THEOREMS) + [f'FFVerif.Pins.{n}' for n in pins]
+        mod.GEN_SITES = list(mod.GEN_SITES) + [f'const:pin.{n}' for n in pins]
+        mod._pins_merged = True
     with common.Lock():
         report, changed = translate.run()
         ctx.stats['gen_files_changed'] = changed
@@ -41,26 +50,50 @@ def lean_stage(ctx, mod):
         for k in gen_failed:
             ctx.oblige('translation:' + k, 'translation', False, report[k]['detail'])
         # the driver's imports are rebuilt too, so that the executed model is the current one
-        ok, log = common.lake_build(getattr(mod, 'LEAN_MODULES', [f'FFVerif.Props.{prop}'])
-                                    + ['FFVerif.Model.All'])
+        all_mods = getattr(mod, 'LEAN_MODULES', [f'FFVerif.Props.{prop}'])
+        pin_mods = [m for m in all_mods if m.startswith('FFVerif.Pins.')]
+        main_mods = [m for m in all_mods if m not in pin_mods]
+        ok, log = common.lake_build(main_mods + ['FFVerif.Model.All'])
+        ctx.model_ok = ok
         fails = common.failed_decls(log) if not ok else []
         bad_decls = []
         for f in fails:
             dn = common.decl_at(f['file'], f['line'])
             bad_decls.append(f"{f['file']}:{f['line']} {dn}: {f['msg']}")
+        # source pins: one module each; a broken pin breaks only its own obligation
+        pin_ok = {}
+        if pin_mods:
+            pok, plog = common.lake_build(pin_mods)
+            for m in pin_mods:
+                pin_ok[m] = (True, '') if pok else None
+            if not pok:
+                for m in pin_mods:
+                    o1, l1 = common.lake_build([m])
+                    msg = ''
+                    if not o1:
+                        mm = [f['msg'] for f in common.failed_decls(l1)]
+                        msg = 'the function body differs from the pinned text: ' + (mm[0] if mm else l1[-200:])
+                    pin_ok[m] = (o1, msg)
         audit_ok, axioms, alog = (False, {}, '')
         # the audit file is derived from the property's theorem list
         apath = os.path.join(common.LEAN, 'FFVerif', 'Audit', prop + '.lean')
-        modules = getattr(mod, 'LEAN_MODULES', [f'FFVerif.Props.{prop}'])
-        atext = ''.join(f'import {m}\n' for m in modules) + ''.join(
-            f'#print axioms {t if t.startswith("FFVerif.") else f"FFVerif.{prop}." + t}\n'
-            for t in mod.THEOREMS)
+        good_mods = (main_mods if ok else []) + [m for m in pin_mods if pin_ok[m][0]]
+
+        def full_name(t):
+            return t if t.startswith('FFVerif.') else f'FFVerif.{prop}.' + t
+
+        def buildable(t):
+            return pin_ok[t][0] if t in pin_ok else ok
+        atext = ''.join(f'import {m}\n' for m in good_mods) + ''.join(
+            f'#print axioms {full_name(t)}\n' for t in mod.THEOREMS if buildable(t))
         translate.write_if_changed(apath, atext)
-        if ok:
+        if good_mods:
             audit_ok, axioms, alog = common.lean_audit(prop)
     for th in mod.THEOREMS:
-        full = th if th.startswith('FFVerif.') else f'FFVerif.{prop}.{th}'
-        if not ok:
+        full = full_name(th)
+        if th in pin_ok and not pin_ok[th][0]:
+            ctx.oblige('theorem:' + th, 'theorem', False, pin_ok[th][1])
+        elif th not in pin_ok and not ok:
             ctx.oblige('theorem:' + th, 'theorem', False,
                        'lake build failed: ' + ' | '.join(bad_decls[:3]) if bad_decls
                        else 'lake build failed: ' + log[-300:])
@@ -136,7 +169,9 @@ def main():
             lean_stage(ctx, mod)
         t1 = time.time()
         ctx.stats['lean_stage_s'] = round(t1 - ctx.t0, 1)
-        lean_ok = not ctx.broken()
+        # the correspondence needs the executable model (a broken source pin or translation site
+        # does not prevent running it)
+        lean_ok = getattr(ctx, 'model_ok', False)
         # correspondence: model driver vs implementation
         try:
             if lean_ok or args.no_lean:
